@@ -9,7 +9,7 @@ import os
 import subprocess
 import tempfile
 
-from .core import AnalysisError
+from .core import AnalysisError, ToolError
 
 HEADERS = [
     'prophy/prophy.hpp', 'prophy/array.hpp', 'prophy/endianness.hpp', 'prophy/optional.hpp',
@@ -213,7 +213,7 @@ class CxxFront(object):
         src = PRELUDE + ''.join('#include <%s>\n' % h for h in HEADERS)
         rc, out, err = clang_run(['-Xclang', '-ast-dump=json', '-Xclang', '-ast-dump-filter=prophy'], src, self.inc)
         if rc != 0:
-            raise AnalysisError('clang++ -fsyntax-only failed on the headers (the headers do not compile):\n' + err[:2000])
+            raise ToolError('clang++ -fsyntax-only failed on the headers (the headers do not compile):\n' + err[:2000])
         self.sources = {}
         self.roots = []
         dec = json.JSONDecoder()
@@ -235,7 +235,7 @@ class CxxFront(object):
             self._resolve_locs(o)
             self.roots.append(N(o, None, self))
         if not self.roots:
-            raise AnalysisError('clang JSON dump is empty')
+            raise ToolError('clang JSON dump is empty')
         self.funcs = []
         self.records = []   # (name, spec-args text list, node)
         for r in self.roots:
